@@ -231,3 +231,68 @@ pub fn builder_from_model_shuffled(p: &RPos, rng: &mut crate::rng::Rng) -> Board
     }
     bb
 }
+
+/// The same builder *content* reached along a different construction path: started from `new()`, `default()`,
+/// a builder made from some unrelated `Board` (by reference or by value), a parsed FEN or `setup(..)`, and then
+/// edited square by square with a random mix of `piece` / `clear_square` / `IndexMut`, the other fields set
+/// through their setters in random order.  A conversion that trusts where a builder came from (instead of what it
+/// holds) answers differently for the two.
+pub fn repath_builder(src: &BoardBuilder, rng: &mut crate::rng::Rng) -> BoardBuilder {
+    use std::str::FromStr;
+    let other_fens = [
+        "rnbqkbnr/pppppppp/8/8/8/8/PPPPPPPP/RNBQKBNR w KQkq - 0 1",
+        "r3k2r/p1ppqpb1/bn2pnp1/3PN3/1p2P3/2N2Q1p/PPPBBPPP/R3K2R w KQkq - 0 1",
+        "8/2p5/3p4/KP5r/1R3p1k/8/4P1P1/8 w - - 0 1",
+        "rnbqkbnr/ppp1pppp/8/8/3pP3/8/PPPP1PPP/RNBQKBNR b KQkq e3 0 1",
+        "4k3/8/8/8/8/8/8/4K3 b - - 0 1",
+    ];
+    let fen = *rng.pick(&other_fens);
+    let mut bb = match rng.below(6) {
+        0 => BoardBuilder::new(),
+        1 => BoardBuilder::default(),
+        2 => BoardBuilder::from(&Board::from_str(fen).expect("HARNESS: corpus fen")),
+        3 => BoardBuilder::from(Board::from_str(fen).expect("HARNESS: corpus fen")),
+        4 => BoardBuilder::from_str(fen).expect("HARNESS: corpus fen"),
+        _ => BoardBuilder::setup(&[(Square::new(rng.below(64) as u8), Piece::Queen, Color::Black), (Square::new(rng.below(64) as u8), Piece::King, Color::White)], Color::Black, chess::CastleRights::Both, chess::CastleRights::KingSide, Some(File::from_index(rng.below(8)))),
+    };
+    let mut steps: Vec<u8> = vec![0, 1, 2, 3];
+    rng.shuffle(&mut steps);
+    for st in steps {
+        match st {
+            0 => {
+                let mut sqs: Vec<u8> = (0..64).collect();
+                rng.shuffle(&mut sqs);
+                for s in sqs {
+                    let sq = Square::new(s);
+                    match src[sq] {
+                        Some((pc, c)) => {
+                            if rng.chance(1, 2) {
+                                bb[sq] = Some((pc, c));
+                            } else {
+                                bb.piece(sq, pc, c);
+                            }
+                        }
+                        None => {
+                            if rng.chance(1, 2) {
+                                bb[sq] = None;
+                            } else {
+                                bb.clear_square(sq);
+                            }
+                        }
+                    }
+                }
+            }
+            1 => {
+                bb.side_to_move(src.get_side_to_move());
+            }
+            2 => {
+                bb.castle_rights(Color::White, src.get_castle_rights(Color::White));
+                bb.castle_rights(Color::Black, src.get_castle_rights(Color::Black));
+            }
+            _ => {
+                bb.en_passant(src.get_en_passant().map(|s| s.get_file()));
+            }
+        }
+    }
+    bb
+}
